@@ -1,11 +1,11 @@
 #!/venv/bin/python
 """record the normalised-AST fingerprints of every hand-modelled function (run on the unchanged tree)"""
 import sys, os, json, importlib, glob
-sys.path.insert(0, '/verif')
+sys.path.insert(0, os.path.dirname(os.path.dirname(os.path.abspath(__file__))))
 from harness.core import *
 allf = {}
-for p in sorted(glob.glob('/verif/harness/props/C*.py')):
+for p in sorted(glob.glob(os.path.join(os.path.dirname(os.path.dirname(os.path.abspath(__file__))), 'harness/props/C*.py'))):
     mod = importlib.import_module('harness.props.' + os.path.basename(p)[:-3])
     allf.update(hand_fingerprints(getattr(mod, 'HAND_MODELLED', [])))
-json.dump(allf, open('/verif/translator/fingerprints.json', 'w'), indent=1, sort_keys=True)
+json.dump(allf, open(os.path.join(os.path.dirname(os.path.dirname(os.path.abspath(__file__))), 'translator/fingerprints.json'), 'w'), indent=1, sort_keys=True)
 print(len(allf), 'fingerprints')
